@@ -217,6 +217,18 @@ _PYTYPE = {
 }
 
 
+_TUPLE_NAME = __import__("re").compile(r"^[1-9][0-9]*-tuple$")
+
+
+def _own_valid_type(dtype):
+    """The valid odML dtype names, spelled out here (not asked of the library): the canonical
+    names, the DType members, n-tuple."""
+    name = getattr(dtype, "value", dtype)
+    if not isinstance(name, str):
+        return False
+    return name.lower() in _PYTYPE or name.lower() in ("str", "bool") or bool(_TUPLE_NAME.match(name))
+
+
 def _value_ok(val, dtype):
     if dtype is None:
         return True, ""
@@ -240,7 +252,7 @@ def values_typed(U):
         if kind_of(obj) != "prop":
             continue
         dtype = obj.dtype
-        if dtype is not None and not _dtypes.valid_type(dtype):
+        if dtype is not None and not _own_valid_type(dtype):
             return ("values.dtype-valid", "obj#%d has dtype %r" % (i, dtype))
         vals = obj.values
         for v in vals:
@@ -589,7 +601,7 @@ def root_index(snap, idx):
 
 REF_ARG_KEYS = ("t", "x", "y", "p", "d", "parent")
 # ops that must not change any pre-existing object at all
-OBSERVERS = ("clone", "export_leaf", "template_clone", "get_values", "hold_list", "validate", "doc_validate",
+OBSERVERS = ("clone", "clone_twice", "export_leaf", "template_clone", "get_values", "hold_list", "validate", "doc_validate",
              "validate_custom", "validate_keep", "validate_rerun", "validate_optional", "save", "load", "restart", "advance", "damage_file")
 
 
@@ -716,6 +728,20 @@ def mon_copy(ctx):
                         (kind_of(orig), shared[:2]))
             if len(set(ids_b)) != len(ids_b):
                 return ("copy.ids", "ids inside the clone are not pairwise distinct")
+    if ctx.name == "clone_twice":
+        first = U.objs[ctx.outcome[1]["new"]]
+        again = U.objs[ctx.outcome[1]["again"]]
+        if ctx.op.get("second") == "export_leaf" and kind_of(first) != "doc":
+            a_ids = [o.id for o in ([first] if kind_of(first) == "prop" else
+                                    [first] + [p for p in first.properties])]
+            b_ids = [o.id for o in U.subtree(again)]
+            if not all(i in b_ids for i in a_ids):
+                return ("copy.ids", "export_leaf of a fresh clone does not carry the clone's ids")
+        else:
+            a_ids = [o.id for o in U.subtree(first)]
+            b_ids = [o.id for o in U.subtree(again)]
+            if a_ids != b_ids:
+                return ("copy.ids", "keep_id copy of a fresh clone has other ids than the clone")
     if ctx.name == "export_leaf":
         orig = ctx.args["x"]
         new = U.objs[ctx.outcome[1]["new"]]
